@@ -252,13 +252,19 @@ def rules(chk, db, prefix='', only=None):
 
 
 def run(chk, db):
-    facts.gate(chk, db, ['nop/utility/bounded_reader.h', 'nop/utility/bounded_writer.h'])
+    facts.gate(chk, db, ['nop/utility/bounded_reader.h', 'nop/utility/bounded_writer.h', 'nop/utility/stream_reader.h', 'nop/utility/stream_writer.h'])
     rules(chk, db)
     from .. import copyrules
     from .. import rwrules
     chk.rule('C', 'the library writers a BoundedWriter usually wraps move exactly the requested bytes with the requested padding value and advance by as much', minimum=6)
     for rec in ('nop::BufferWriter', 'nop::PedanticBufferWriter', 'nop::ConstexprBufferWriter'):
         rwrules.check_buffer_class(chk, db, rec, {'T': None, 'G': None, 'E': None, 'C': 'C'}, guard_required=False)
+    # ... and the stream reader / writer it wraps when tables are persisted through iostreams: the wrapper counts what it asked
+    # for, so a wrapped Skip / Read / Write that moves fewer bytes than asked yet reports success breaks the confinement
+    chk.rule('ST', 'the stream reader / writer a bounded wrapper usually wraps move exactly the requested bytes or fail', minimum=6)
+    chk.rule('SS', 'stream status mapping', minimum=2)
+    rwrules.check_stream_class(chk, db, 'nop::StreamReader', 'reader', 'ST', 'SS')
+    rwrules.check_stream_class(chk, db, 'nop::StreamWriter', 'writer', 'ST', 'SS')
     copyrules.check(chk, db, 'CP', {'nop::BoundedReader', 'nop::BoundedWriter'}, minimum=4,
                     text='a copied / moved / assigned bounded wrapper keeps the consumed count, the limit and the wrapped object (the budget is not refreshed)')
     chk.explanation = (
